@@ -47,15 +47,11 @@ type ReplaySpec struct {
 	KV      [][2]string
 }
 
-// deadReturn reports whether the contract declares the n-th return statement (source order) unreachable in the code
-// itself: `opt dead-returns=2,5`.
-func (fc *FuncContract) deadReturn(n int) bool {
-	for _, x := range strings.Split(fc.Opts["dead-returns"], ",") {
-		if strings.TrimSpace(x) == fmt.Sprint(n) && n > 0 {
-			return true
-		}
-	}
-	return false
+// deadReturn reports whether the contract declares the return statement on the given source line unreachable in the
+// code itself: `opt dead-return=TEXT` where TEXT is a fragment of that line (stable under edits elsewhere in the function).
+func (fc *FuncContract) deadReturn(line string) bool {
+	t := strings.TrimSpace(fc.Opts["dead-return"])
+	return t != "" && line != "" && strings.Contains(line, t)
 }
 
 // replayFor picks the replay clause for an obligation with the given properties.
@@ -165,7 +161,7 @@ type Contracts struct {
 
 var clauseKinds = map[string]bool{"requires": true, "ensures": true, "invariant": true, "returns": true,
 	"fswrite": true, "assume": true, "assert": true, "params": true, "pure": true, "replay": true, "sweep": true,
-	"decreases": true, "opt": true, "frame": true, "impure": true, "guide": true, "at-call": true, "ghost": true, "sets": true, "slice-invariant": true, "watch": true, "ensures-bounded": true, "modifies": true, "each": true, "ensures-local": true, "assume-at-call": true, "closure-invariant": true, "defines": true, "tolerates": true, "fresh-invariant": true, "frame-at-call": true, "at-panic": true, "havocs": true, "fsread": true}
+	"decreases": true, "opt": true, "frame": true, "impure": true, "guide": true, "at-call": true, "set-at-call": true, "ghost": true, "sets": true, "slice-invariant": true, "watch": true, "ensures-bounded": true, "modifies": true, "each": true, "ensures-local": true, "assume-at-call": true, "closure-invariant": true, "defines": true, "tolerates": true, "fresh-invariant": true, "frame-at-call": true, "at-panic": true, "havocs": true, "fsread": true}
 
 var theoremRe = regexp.MustCompile(`^(\S+)\s*\(([^)]*)\)\s*:\s*(.*)$`)
 var lemmaPatRe = regexp.MustCompile(`^([A-Za-z_][A-Za-z0-9_.]*)\(([^)]*)\)\s*`)
@@ -488,7 +484,7 @@ func (cs *Contracts) parseContractFile(file string, repo bool, pkgPath string) e
 					c.Callee = rest[:i]
 					rest = strings.TrimSpace(rest[i+1:])
 				}
-				if word == "at-call" || word == "assume-at-call" || word == "tolerates" || word == "frame-at-call" {
+				if word == "at-call" || word == "assume-at-call" || word == "tolerates" || word == "frame-at-call" || word == "set-at-call" {
 					// at-call CALLEE label: expr   (a0, a1, ... name the call arguments)
 					i := strings.IndexAny(rest, " \t")
 					if i < 0 {
